@@ -10,7 +10,7 @@ CONSTANTS
   RootTypes <- MCRoot
   Edits <- MCEditsWide
   EncToks <- MCEncAll
-  HelperToks <- MCHelpers
+  HelperToks <- MCHelpersAll
   ImportToks <- MCImportsAll
   CmtToks <- MCCmt
   NeverPruned <- MCNever
